@@ -13,7 +13,29 @@ import (
 // control tarball, so nothing built from it can leave more than one pipe write pending in signdeb.Sign's
 // control-parser goroutine.  These variants carry control members larger than any buffer on that path.
 
-var debVariants = []string{"bigctl", "badgz", "badgz-late", "badxz", "badbz2", "zstctl", "unkctl", "tarerr", "nocontrolfile", "emptyctl", "bigctl-signedrole"}
+var debVariants = []string{"bigctl", "badgz", "badgz-late", "badxz", "badbz2", "zstctl", "unkctl", "tarerr", "nocontrolfile", "emptyctl", "bigctl-signedrole",
+	"ctl:trailing-blank", "ctl:two-paragraphs", "ctl:leading-blank", "ctl:only-blank", "ctl:empty", "ctl:continuation", "ctl:nospace", "ctl:nocolon",
+	"ctl:colon-first", "ctl:crlf", "ctl:no-final-newline", "ctl:tabs", "ctl:binary", "ctl:longline", "ctl:dup-fields", "ctl:nul"}
+
+// controlTexts: shapes of the control FILE (RFC 822 style paragraphs) that signdeb's control parser must survive; all
+// are legal or near-legal Debian control data, none is in the fixture
+var controlTexts = map[string]string{
+	"trailing-blank":   "Package: verifpkg\nVersion: 1.0-1\nArchitecture: all\nMaintainer: nobody <nobody@example.com>\nDescription: synthetic\n\n",
+	"two-paragraphs":   "Package: verifpkg\nVersion: 1.0-1\nArchitecture: all\n\nPackage: second\nVersion: 2\nArchitecture: any\n",
+	"leading-blank":    "\n\nPackage: verifpkg\nVersion: 1.0-1\nArchitecture: all\n",
+	"only-blank":       "\n\n\n",
+	"empty":            "",
+	"continuation":     "Package: verifpkg\nVersion: 1.0-1\nArchitecture: all\nDescription: short\n long line one\n .\n\tline after tab\n",
+	"nospace":          "Package:verifpkg\nVersion:1.0-1\nArchitecture:all\n",
+	"nocolon":          "Package verifpkg\nVersion: 1.0-1\nArchitecture: all\njust words\n",
+	"colon-first":      ": value\nPackage: verifpkg\n:\nVersion: 1.0-1\nArchitecture: all\n",
+	"crlf":             "Package: verifpkg\r\nVersion: 1.0-1\r\nArchitecture: all\r\n\r\n",
+	"no-final-newline": "Package: verifpkg\nVersion: 1.0-1\nArchitecture: all",
+	"tabs":             "Package:\tverifpkg\nVersion:\t1.0-1\n\t\nArchitecture: all\n \n",
+	"binary":           "Package: verifpkg\n\xff\xfe\x00\x01\n\x80\x81: \xc3\x28\nVersion: 1.0-1\nArchitecture: all\n",
+	"dup-fields":       "Package: a\nPackage: b\nVersion: 1\nVersion: 2\nArchitecture: all\nArchitecture: any\n",
+	"nul":              "Package: verif\x00pkg\nVersion: 1.0-1\x00\nArchitecture: all\n\x00\n",
+}
 
 func arMember(name string, data []byte) []byte {
 	var b bytes.Buffer
@@ -54,6 +76,18 @@ func DebSynthetic(variant string) ([]byte, error) {
 	data := arMember("data.tar.gz", controlTarGz(map[string][]byte{"./usr/share/doc/x": []byte("x\n")}, []string{"./usr/share/doc/x"}))
 	out := bytes.NewBufferString("!<arch>\n")
 	out.Write(arMember("debian-binary", []byte("2.0\n")))
+	if len(variant) > 4 && variant[:4] == "ctl:" {
+		txt, ok := controlTexts[variant[4:]]
+		if variant == "ctl:longline" {
+			txt, ok = "Package: verifpkg\nVersion: 1.0-1\nArchitecture: all\nDescription: "+string(bytes.Repeat([]byte("x"), 70000))+"\n", true
+		}
+		if !ok {
+			return nil, fmt.Errorf("unknown deb variant %q", variant)
+		}
+		out.Write(arMember("control.tar.gz", controlTarGz(map[string][]byte{"./control": []byte(txt), "./md5sums": noise(300, 7)}, []string{"./control", "./md5sums"})))
+		out.Write(data)
+		return out.Bytes(), nil
+	}
 	switch variant {
 	case "bigctl":
 		out.Write(arMember("control.tar.gz", good))
